@@ -163,6 +163,11 @@ def extract():
     ngram_names = re.findall(r"let (\w+) := Z\.of_nat \(tt_ngram \w+\) in", body)
     ngram_alt = "|".join([r"\(Z\.of_nat \(tt_ngram \w+\)\)"] + [re.escape(n) for n in ngram_names])
     skip = re.findall(r"^\s*if \(\(?\w+\)? (<=\?|<\?) (?:%s)\)%%Z then[^\n]*\n\s*Ok \(Continue " % ngram_alt, body, re.M)
+    if not skip:
+        # the skip merged into the test of the following if: `if length >= ngram and ...:` -> `if ((ngram <=? length)%Z) && ...`
+        # (length >= ngram is the negation of the skip `length < ngram`; length > ngram of `length <= ngram`)
+        merged = re.findall(r"^\s*if \(\(\((?:%s) (<=\?|<\?) \(?\w+\)?\)%%Z\) && " % ngram_alt, body, re.M)
+        skip = [{"<=?": "<?", "<?": "<=?"}[m] for m in merged]
     if len(skip) != 1:
         raise ExtractError("calc_omen_keyspace: expected exactly one skip `if length < ngram: continue` / `<=`, found %r" % (skip,))
     C["keyspace_len_skip_le"] = skip[0] == "<=?"
